@@ -79,6 +79,11 @@ fn main() {
     }
     match prop.as_str() {
         "C01" => go!(h1::H1Rig { prop: "C01" }),
+        "C02" => go!(h1::H1Rig { prop: "C02" }),
+        "C03" => go!(h1::H1Rig { prop: "C03" }),
+        "C04" => go!(h1::H1Rig { prop: "C04" }),
+        "C05" => go!(h1::H1Rig { prop: "C05" }),
+        "C06" => go!(h1::H1Rig { prop: "C06" }),
         _ => {
             eprintln!("unknown property {}", prop);
             std::process::exit(2);
